@@ -693,7 +693,7 @@ def shards(tier):
 
 
 def run_shard(spec, ctx):
-    return core.hyp_shard(cases(), check_case, ctx, max_examples=_scaled(ctx.pick(4500, 13000)))
+    return core.hyp_shard(cases(), check_case, ctx, max_examples=_scaled(ctx.pick(4500, 11000)))
 
 
 def floors(total, tier):
